@@ -5,7 +5,9 @@
 from math import isqrt
 
 from .core import D, M128
-from .world import ACTIVE, ACTORS, BAL, ainfo, attr_events, b64, dec_str
+from .world import ACTIVE, ACTORS, BAL, BYSTANDERS, ainfo, attr_events, b64, dec_str
+
+HOLDERS = [a for a in ACTORS if a not in BYSTANDERS]   # bystanders hold balances and allowances but never act
 
 DEFAULT_W = {
     "swap": 30, "swap_window": 4, "swap_malformed": 5, "provide": 12, "provide_first": 4, "withdraw": 10,
@@ -259,7 +261,7 @@ class HistGen:
         led = w.ledger
         cands = []
         for p in w.pairs:
-            for a in ACTORS:
+            for a in HOLDERS:
                 b = led.get(a, p.lp)
                 if b > 0:
                     cands.append((p, a, b))
@@ -314,6 +316,16 @@ class HistGen:
                     if nx not in path:
                         cyc(path + [nx])
             cyc([a])
+        # "lollipop" routes: a tail into a 3-cycle, ending on the revisited asset (X -> T -> Y -> Z -> T), distinct pairs
+        lolli = []
+        for hops in list(out):
+            if len(hops) == 3 and hops[0][0] == hops[-1][1]:
+                t = hops[0][0]
+                inside = set(a for h in hops for a in h)
+                for x in adj.get(t, []):
+                    if x not in inside:
+                        lolli.append([(x, t)] + hops)
+        out += lolli
         self._paths, self._paths_n = out, len(self.w.pairs)
         return out
 
@@ -375,6 +387,14 @@ class HistGen:
         elif mode == "dangling":
             h1, h2 = rng.choice(ps), rng.choice(ps)
             hops = h1[:1] + [h for h in h2[:1] if h[1] != h1[0][1] and h[0] != h1[0][1]]
+            if len(hops) == 2 and hops[0][0][0] == "n" and hops[1][0][0] == "n" and hops[0][0] != hops[1][0] and rng.random() < 0.8:
+                # every branch gets its own input coin: nothing but the shape check can stop this route
+                amount = rel_amount(rng, 1 << w.scale_bits, w.scale_bits, 1 << 100)
+                op = w.op_route(actor, hops, amount, minimum_receive=rng.choice([None, None, 0, 1]), to=rng.choice([None, "recv"]),
+                                extra_funds=[(hops[1][0][1], rel_amount(rng, 1 << w.scale_bits, w.scale_bits, 1 << 100))])
+                op["sem"]["bad_mode"] = "dangling"
+                op["kind"] = "route_bad"
+                return op, [w.q_route_sim(hops, amount)]
         elif mode == "merge":
             # [A->B, C->B]
             cands = [(p, q) for p in w.pairs for q in w.pairs if p is not q and set(p.assets) & set(q.assets)]
@@ -421,7 +441,7 @@ class HistGen:
     def g_lp(self, burn):
         w, rng = self.w, self.rng
         led = w.ledger
-        cands = [(p, a, led.get(a, p.lp)) for p in w.pairs for a in ACTORS if led.get(a, p.lp) > 0]
+        cands = [(p, a, led.get(a, p.lp)) for p in w.pairs for a in HOLDERS if led.get(a, p.lp) > 0]
         if not cands:
             return self.g_provide(first=True)
         p, actor, bal = rng.choice(cands)
@@ -494,7 +514,7 @@ class HistGen:
                 return None
             p = rng.choice(cands)
             n = 0
-            for a in ACTORS:
+            for a in HOLDERS:
                 if led.get(a, p.lp) > 0:
                     self.pending.append({"kind": "withdraw_all", "actor": a, "pair": p, "due": self.count + n, "born": self.count})
                     n += 1
